@@ -1,0 +1,21 @@
+//go:build verif
+
+package server
+
+// VerifHook and VerifYield are set by the verification harness (package-internal tests). nil means
+// "behave exactly like production".
+var VerifHook func(point int) bool
+var VerifYield func(point int)
+
+func verifHook(point int) bool {
+	if h := VerifHook; h != nil {
+		return h(point)
+	}
+	return false
+}
+
+func verifYield(point int) {
+	if y := VerifYield; y != nil {
+		y(point)
+	}
+}
